@@ -27,9 +27,9 @@ LEVEL_NOTE = (
 TECHNIQUE = "property-based testing: Hypothesis random input files through the CLI (in-process + subprocess sample) vs independent naming rule, recount and parsers"
 DESIGN_REF = "DESIGN.md section 6 (C12)"
 RULE = (
-    "Hypothesis cases: binary input <=5 object / <=4 species leaves (half of the `lca` cases 8..14 object / <=10 species leaves, where generated labels reach two digits), leaf names <species>_<id> (a quarter of the cases with species leaves named S<k> themselves), every ancestor of both trees independently unnamed, "
+    "Hypothesis cases: binary input <=5 object / <=4 species leaves (half of the `lca` cases 8..14 object / <=10 species leaves, where generated labels reach two digits), leaf names <species>_<id> (a quarter of the cases with species leaves named S<k> themselves), every ancestor of both trees independently unnamed (empty name or ete3's placeholder NoName), "
     "freshly named, named like O<k>/S<k> (k<=4, k<=15 on the large cases) or - object ancestors - named like a leaf of some species (<species>_<n>), leaf_object_species present or omitted, leaf_syntenies present (<=4 families, possibly "
-    "inconsistent) or omitted, cost options inside the coherent region spe + 2*sloss <= dup + 2*floss (hgt possibly float('inf'); outside the region `any` can cost more than `all`: known finding F-COHERENCE, witness replayed), one of the seven algorithms, files given by --input/--output or (a quarter of the cases) stdin/stdout.  `reconcile` is run with --solutions any "
+    "inconsistent) or omitted, cost options inside the coherent region spe + 2*sloss <= dup + 2*floss (hgt possibly float('inf'); outside the region `any` can cost more than `all`: known finding F-COHERENCE, witness replayed), one of the seven algorithms, files given by --input/--output (the output path holding stale content of an earlier run in half of those cases) or (a quarter of the cases) stdin/stdout.  `reconcile` is run with --solutions any "
     "and all.  Checked: status 0 and >=1 JSON line when a solution exists (status 1 and an empty output file when a super-reconciliation algorithm "
     "gets no syntenies or no root order exists); in every line all node names distinct and non-empty and both trees equal the input trees renamed "
     "by the independent rule; recount of the parsed line == package cost of from_dict(line) == printed 'Minimum cost'; solutions(all) contain "
@@ -65,8 +65,12 @@ def _case(draw):
         for n in t.preorder():
             if t.is_leaf(n):
                 continue
-            choice = draw(st.sampled_from(["absent", "like", "fresh", "absent", "leaflike"]))
+            choice = draw(st.sampled_from(["absent", "like", "fresh", "absent", "leaflike", "noname"]))
             name = ""
+            if choice == "noname":
+                # the placeholder ete3 writes for an unnamed node (what to_dict() of an unlabelled input contains)
+                t.name[n] = "NoName"
+                continue
             if choice == "fresh":
                 name = f"anc{prefix.lower()}{n}"
             elif choice == "like":
@@ -87,6 +91,7 @@ def _case(draw):
     case["_algo"] = algo
     case["_orientation"] = draw(st.sampled_from(["horizontal", "vertical"]))
     case["_via_std"] = gen.chance(draw, 1, 4)
+    case["_stale_output"] = draw(st.booleans())
     return case
 
 
@@ -132,7 +137,7 @@ def check(case):
     inst = Instance(inst_case)  # labels unnamed ancestors by the independent rule
     expected = _expected_trees(base)
     unnamed = sum(1 for key in ("object_tree", "species_tree") for n in parse_newick(base[key]).nodes()
-                  if parse_newick(base[key]).name[n] == "")
+                  if parse_newick(base[key]).name[n] in ("", "NoName"))
     like = any(
         (t.name[n][:1] in "OS" and t.name[n][1:].isdigit())
         for t in (parse_newick(base["object_tree"]), parse_newick(base["species_tree"])) for n in t.nodes() if not t.is_leaf(n)
@@ -148,7 +153,7 @@ def check(case):
         labels.append("stdin/stdout")
     results = {}
     for policy in ("any", "all"):
-        results[policy] = stubs.cli_reconcile(base, algo, policy, via_std=bool(case.get("_via_std")))
+        results[policy] = stubs.cli_reconcile(base, algo, policy, via_std=bool(case.get("_via_std")), stale_output=bool(case.get("_stale_output")))
     evals = 2
     expect_fail = None
     if algo in SUPER and not has_syn:
